@@ -16,6 +16,7 @@ import (
 	"math/rand"
 	"os"
 	"path/filepath"
+	"regexp"
 	"runtime"
 	"sort"
 	"strings"
@@ -454,8 +455,8 @@ func c14Items(cp *corpus, tier string, seed int64) (good []shapeResult, vars []c
 	for i := range good {
 		b := &good[i]
 		depth := b.item.shape.depth()
-		for _, mode := range []int{1, 2} {
-			mn := map[int]string{1: "excluded-fields", 2: "embedded"}[mode]
+		for _, mode := range []int{1, 2, 3} {
+			mn := map[int]string{1: "excluded-fields", 2: "embedded", 3: "multiname"}[mode]
 			levels := []int{-1}
 			for l := 0; l <= depth; l++ {
 				levels = append(levels, l)
@@ -495,7 +496,8 @@ func checkC14(c *Ctx) {
 			r.bad("TV-inert", key+" generate", "", "parquetgen fails on the decorated struct although the base struct generates: "+oneLine(d.genOut))
 			continue
 		case !bytes.Equal(normHeader(d.text), normHeader(v.base.text)):
-			r.bad("TV-inert", key+" program", "", "the generated program differs from the base struct's program: excluded fields / embedding are not inert")
+			cols := programColumns(d.text)
+			r.bad("TV-inert", key+" program: columns "+cols, "", "the generated program differs from the base struct's program (its columns are "+cols+"; base: "+programColumns(v.base.text)+"): excluded fields / embedding are not inert")
 			continue
 		}
 		if len(d.errFuncs) > 0 {
@@ -694,4 +696,23 @@ func orderSensitive(info *types.Info, rs *ast.RangeStmt) string {
 		return true
 	})
 	return why
+}
+
+var pathLit = regexp.MustCompile(`\[\]string\{([^}]*)\}`)
+
+// programColumns lists the column paths of the Fields() literal of a generated program.
+func programColumns(text []byte) string {
+	i := bytes.Index(text, []byte("func Fields("))
+	if i < 0 {
+		return "?"
+	}
+	j := bytes.Index(text[i:], []byte("\n}\n"))
+	if j < 0 {
+		return "?"
+	}
+	var cols []string
+	for _, m := range pathLit.FindAllSubmatch(text[i:i+j], -1) {
+		cols = append(cols, strings.ReplaceAll(strings.ReplaceAll(strings.ReplaceAll(string(m[1]), `"`, ""), ", ", "."), " ", ""))
+	}
+	return "[" + strings.Join(cols, " ") + "]"
 }
